@@ -551,6 +551,59 @@ func (w *wworld) checkSnapshots() {
 	}
 }
 
+// reset: ResetCollection at the end of a history; that collection's datatypes, operations, snapshots, clients and user
+// documents go, everything of the other collections stays exactly as it was (C17)
+func (w *wworld) reset() {
+	col := w.cols[w.c.Rng.Intn(len(w.cols))]
+	part := func(d map[string][]bson.D, num uint64, mine bool) string {
+		var sb strings.Builder
+		for _, coll := range []string{"-_-Datatypes", "-_-Operations", "-_-Snapshots", "-_-Clients"} {
+			for _, x := range d[coll] {
+				if (bnum(bget(x, "colNum")) == num) == mine {
+					b, _ := bson.MarshalExtJSON(x, false, false)
+					sb.WriteString(coll + string(b) + "\n")
+				}
+			}
+		}
+		return sb.String()
+	}
+	colDoc, _ := w.e.mgr.Mongo.GetCollection(w.e.ctx, col)
+	if colDoc == nil {
+		return
+	}
+	num := uint64(colDoc.Num)
+	before := w.e.fm.Dump("orda")
+	base := runtime.NumGoroutine()
+	if _, err := w.e.svc.ResetCollection(gocontext.TODO(), &model.CollectionMessage{Collection: col}); err != nil {
+		w.c.Violate("C17", "reset-failed", fmt.Sprintf("ResetCollection(%s) failed: %v", col, err), w.desc)
+		return
+	}
+	w.settle(base)
+	after := w.e.fm.Dump("orda")
+	w.desc = append(w.desc, "ResetCollection("+col+")")
+	if rest := part(after, num, true); rest != "" {
+		w.c.Violate("C17", "reset-left-documents", fmt.Sprintf("after ResetCollection(%s) documents of that collection remain: %s", col, rest), w.desc)
+	}
+	if len(after[col]) != 0 {
+		w.c.Violate("C17", "reset-left-documents", fmt.Sprintf("after ResetCollection(%s) the user collection still holds %d documents", col, len(after[col])), w.desc)
+	}
+	if part(before, num, false) != part(after, num, false) {
+		w.c.Violate("C17", "reset-touched-other-collection", fmt.Sprintf("ResetCollection(%s) changed documents of another collection", col), w.desc)
+	}
+	for _, other := range w.cols {
+		if other != col && len(before[other]) != len(after[other]) {
+			w.c.Violate("C17", "reset-touched-other-collection", fmt.Sprintf("ResetCollection(%s) changed the user collection %s", col, other), w.desc)
+		}
+	}
+	var cls []string
+	for _, cd := range after["-_-Clients"] {
+		cls = append(cls, gPair(gStr(fmt.Sprint(bget(cd, "_id"))), gN(bnum(bget(cd, "colNum")))))
+	}
+	dg := w.dbDigest()
+	w.evs = append(w.evs, fmt.Sprintf("WReset %s %s %s", gStr(col), gList(cls), dg.gal))
+	w.c.Count("ev-reset-collection")
+}
+
 // restPatch calls the REST patch endpoint for a key of a Document world (an existing datatype or a new key): the answer
 // must be the target, the stored log must stay well-formed, and the clients converge to it later (quiescence oracle)
 func (w *wworld) restPatch() {
@@ -1633,6 +1686,10 @@ func sliceWire(c *Ctx, kind string) {
 			}
 			w.cur = "quiesce"
 			w.quiesce()
+			if c.Rng.Intn(2) == 0 {
+				w.cur = "reset"
+				w.reset()
+			}
 		})
 		if p {
 			c.Count("history-ended-by-panic")
